@@ -62,7 +62,7 @@ func Load(repo string) (*Program, error) {
 	if nerr > 0 {
 		return nil, fmt.Errorf("%d load errors in module packages", nerr)
 	}
-	prog, _ := ssautil.AllPackages(pkgs, ssa.InstantiateGenerics)
+	prog, _ := ssautil.AllPackages(pkgs, ssa.InstantiateGenerics|ssa.GlobalDebug)
 	prog.Build()
 	P := &Program{Pkgs: pkgs, SSA: prog, ByPath: map[string]*ssa.Package{}, Funcs: map[string]*ssa.Function{},
 		Blocks: map[string]*Block{}, Specs: map[string]*SpecFun{}, Axioms: map[string][]Clause{}, RepoDir: repo}
